@@ -6,7 +6,9 @@
 From Verif Require Import Common C20_Model C20_Spec.
 Local Open Scope N_scope.
 
-Definition case := (input * obs)%type.
+(* a case: the tree AS IT IS ON DISK (regular files, directories, symbolic links with what they
+   resolve to, FIFOs) and the scenario; the model runs on what Lstat shows of it ([to_input]) *)
+Definition case := (xinput * obs)%type.
 
 Definition beh_of (i : input) (name : bytes) : behaviour :=
   match beh_code i name with
@@ -37,7 +39,7 @@ Definition model_of (i : input) : obs :=
          else None)
         (if i_with_init i then index_obs_of i else []).
 
-Definition model_obs (c : case) : obs := model_of (fst c).
+Definition model_obs (c : case) : obs := model_of (to_input (fst c)).
 
 Definition paths_eqb : list bytes -> list bytes -> bool := list_eqb bytes_eqb.
 Definition init_obs_eqb (a b : init_obs) : bool :=
@@ -55,4 +57,4 @@ Definition mismatches (cs : list case) : list N := indices_where (fun c => negb 
 (* the property predicate P and, file by file, P_files (every file of the tree is discovered /
    asked for --config as often as the conditions on its own name, mode and directories say) *)
 Definition spec_violations (cs : list case) : list N :=
-  indices_where (fun c => negb (P (fst c) (snd c) && P_files (fst c) (snd c))) cs.
+  indices_where (fun c => negb (PX (fst c) (snd c))) cs.
